@@ -2,6 +2,7 @@ package main
 
 import (
 	"go/constant"
+	"sort"
 	"fmt"
 	"go/token"
 	"go/types"
@@ -82,7 +83,7 @@ func (e *Exec) isSpecFn(fn *ssa.Function) bool {
 		fn = o
 	}
 	pos := e.eng.prog.Fset.Position(fn.Pos())
-	return strings.HasSuffix(pos.Filename, "zz_verif_spec_gen.go")
+	return strings.Contains(pos.Filename, "zz_verif_spec_gen")
 }
 
 func isGhostBody(fn *ssa.Function) bool {
@@ -120,6 +121,9 @@ func (e *Exec) callStatic(f *frame, in ssa.Instruction, fn *ssa.Function, args [
 		return e.inline(f, in, fn, args, bindings, rt, h, g)
 	}
 	_, k2 := calleeKeyOf(fn)
+	if len(fn.Blocks) > 0 && e.inRepoFn(fn) {
+		return e.summaryCall(f, in, fn, k2, args, rt, h, g)
+	}
 	return e.unknownCall(f, in, k2, args, rt, h, g)
 }
 
@@ -140,11 +144,26 @@ func (e *Exec) canInline(fn *ssa.Function) bool {
 		root = root.Parent()
 	}
 	if root.Pkg != nil && e.eng.ld.inRepo(root.Pkg.Pkg.Path()) {
+		if e.isSpecFn(fn) {
+			return true
+		}
 		n := 0
 		for _, b := range fn.Blocks {
-			n += len(b.Instrs)
+			for _, in := range b.Instrs {
+				if _, ok := in.(*ssa.DebugRef); !ok {
+					n++
+				}
+			}
+			for _, s := range b.Succs {
+				if s.Dominates(b) && e.specDepth == 0 {
+					return false // loops are not inlined: they need an invariant, hence a contract
+				}
+			}
 		}
-		return n <= 900
+		if fn.Parent() != nil {
+			return n <= 400 // closures of the function under verification
+		}
+		return n <= e.eng.inlineMax
 	}
 	_, k2 := calleeKeyOf(fn)
 	return e.eng.ld.inlineExternal[k2]
@@ -263,8 +282,29 @@ func (e *Exec) havocPointee(h *Heap, a Val, depth int) {
 	case *types.Slice:
 		comp := e.elemComp(t.Elem())
 		base := "(sl_base " + a.T + ")"
+		// variadic packs ([]interface{} built at the call site): what the elements point to is reachable too
+		if depth == 0 {
+			refs := map[string]bool{base: true}
+			if a.A != nil {
+				refs[a.A.Ref] = true
+			}
+			for _, al := range a.Allocs {
+				refs[al] = true
+			}
+			var keys []string
+			for k := range e.shadow {
+				keys = append(keys, k)
+			}
+			sort.Strings(keys)
+			for _, k := range keys {
+				if i := strings.Index(k, "|"); i > 0 && refs[k[:i]] {
+					sv := e.shadow[k]
+					e.escape(sv)
+					e.havocPointee(h, sv, 0)
+				}
+			}
+		}
 		h.m[comp] = store(e.hget(h, comp), base, e.s.freshConst("hv", e.s.arrSort(e.s.sortOf(t.Elem()))))
-		// variadic ...interface{} packs: look through to boxed pointers
 	case *types.Map:
 		dc, vc := e.mapComps(t)
 		h.m[dc] = store(e.hget(h, dc), a.T, e.s.freshConst("hv", "(Array "+e.s.sortOf(t.Key())+" Bool)"))
@@ -328,9 +368,7 @@ func (e *Exec) builtin(f *frame, in ssa.Instruction, b *ssa.Builtin, args []Val,
 		}
 		add := args[1]
 		// result: a fresh array holding old ++ added (we do not model in-place growth aliasing)
-		e.allocN++
-		ref := fmt.Sprintf("alloc_%d", e.allocN)
-		e.s.declConst(ref, "Ref")
+		ref := e.newAlloc()
 		es := e.s.sortOf(st.Elem())
 		arr := e.s.freshConst("app", e.s.arrSort(es))
 		h = h.clone()
@@ -513,6 +551,19 @@ func (e *Exec) ghostCall(f *frame, in ssa.Instruction, fn *ssa.Function, args []
 		return B(e.heldTerm(h, args[0]))
 	case "fresh":
 		return B("true")
+	case "fmtLiteralPrefix":
+		// literal text of a constant format string before its first verb
+		t := args[0].T
+		if strings.HasPrefix(t, "\"") && strings.HasSuffix(t, "\"") {
+			if b, exact := smtStringToBytes(t); exact {
+				s := string(b)
+				if i := strings.IndexByte(s, '%'); i >= 0 {
+					s = s[:i]
+				}
+				return B(smtStringLit(s))
+			}
+		}
+		return B("\"\"")
 	case "refOf":
 		v := args[0]
 		if v.Dyn != nil {
@@ -577,12 +628,8 @@ func (e *Exec) evalSpec(sf *ssa.Function, args []Val, h *Heap, pre *Heap) string
 	}
 	e.specDepth++
 	defer func() { e.specDepth-- }()
-	savedPriv := len(e.priv)
-	defer func() {
-		if savedPriv <= len(e.priv) {
-			e.priv = e.priv[:savedPriv]
-		}
-	}()
+	savedPriv := append([]*privRef{}, e.priv...)
+	defer func() { e.priv = savedPriv }()
 	if pre != nil && usesOld(sf, map[*ssa.Function]bool{}) {
 		// first evaluation in the pre-state to obtain the values of old(...) arguments
 		old := map[ssa.Value]Val{}
@@ -618,9 +665,9 @@ func (e *Exec) evalModifies(sf *ssa.Function, args []Val, h *Heap) []modTarget {
 	e.specDepth++
 	nf := e.newFrame(sf, "")
 	e.inlineStk = append(e.inlineStk, sf)
-	savedPriv := len(e.priv)
+	savedPriv := append([]*privRef{}, e.priv...)
 	e.run(nf, args, h, "true")
-	e.priv = e.priv[:savedPriv]
+	e.priv = savedPriv
 	e.inlineStk = e.inlineStk[:len(e.inlineStk)-1]
 	e.specDepth--
 	e.modRec = saved
@@ -659,6 +706,9 @@ func (e *Exec) contractCall(f *frame, in ssa.Instruction, sp *FuncSpec, key stri
 			continue
 		}
 		if e.specDepth > 0 || !e.wantClause(c) {
+			continue
+		}
+		if e.overridden(sp, key, c) {
 			continue
 		}
 		t := e.evalSpec(e.eng.ld.specFunc(sp, c), args, h, nil)
@@ -832,4 +882,89 @@ func usesOld(fn *ssa.Function, seen map[*ssa.Function]bool) bool {
 		}
 	}
 	return false
+}
+
+// overridden: the function under verification replaces this callee clause at its call sites.
+func (e *Exec) overridden(sp *FuncSpec, key string, c *Clause) bool {
+	if e.topSpec == nil || c.Label == "" {
+		return false
+	}
+	for _, tc := range e.topSpec.Clauses {
+		if tc.Kind == KAssertCall && tc.Overrides == c.Label && (tc.Callee == sp.Key || tc.Callee == key) {
+			return true
+		}
+	}
+	return false
+}
+
+func (e *Exec) inRepoFn(fn *ssa.Function) bool {
+	root := fn
+	for root.Parent() != nil {
+		root = root.Parent()
+	}
+	return root.Pkg != nil && e.eng.ld.inRepo(root.Pkg.Pkg.Path())
+}
+
+// summaryCall: an un-contracted /repo callee that is not inlined. Its result is unconstrained and
+// the heap components it may write (inferred, see modset.go) are forgotten.
+func (e *Exec) summaryCall(f *frame, in ssa.Instruction, fn *ssa.Function, key string, args []Val, rt types.Type, h *Heap, g string) (Val, *Heap, string) {
+	if e.pure > 0 {
+		panic("call of " + key + " inside a quantifier body")
+	}
+	ms := e.eng.modSetOf(fn)
+	if e.specDepth == 0 {
+		e.havocked["summary:"+key]++
+	}
+	for _, a := range args {
+		e.escape(a)
+	}
+	pre := h
+	h = h.clone()
+	if ms.all {
+		h = e.havocAll(h, "summary of "+key+" (unbounded effects)")
+	} else {
+		var names []string
+		for _, d := range ms.descs {
+			switch d.kind {
+			case 'F':
+				c, _ := e.fieldComp(d.t, d.field)
+				names = append(names, c)
+			case 'E':
+				names = append(names, e.elemComp(d.t))
+			case 'D':
+				names = append(names, e.derefComp(d.t))
+			case 'M':
+				dc, vc := e.mapComps(d.t.Underlying().(*types.Map))
+				names = append(names, dc, vc)
+			case 'G':
+				names = append(names, e.globalComp(d.g))
+			}
+		}
+		for _, n := range ms.named {
+			names = append(names, e.resolveCompName(n))
+		}
+		if ms.hasExpr {
+			for c := range e.compSort {
+				if strings.HasPrefix(c, "G|") {
+					names = append(names, c)
+				}
+			}
+			for c := range e.eng.ghostVars {
+				if _, ok := e.compSort[c]; ok {
+					names = append(names, c)
+				}
+			}
+		}
+		sort.Strings(names)
+		for _, c := range names {
+			if e.eng.stable[c] {
+				continue
+			}
+			h.m[c] = e.s.freshConst("sm", e.compSort[c])
+		}
+		e.reassertPrivate(pre, h)
+	}
+	res := e.resultVal("r_"+shortName(key), rt)
+	e.logCall(key, res)
+	return res, h, g
 }
